@@ -125,7 +125,12 @@ def run_case(case, ctx):
     eng = m.PublicInference(pub, metric=metric)
     for k, call in enumerate(case['calls']):
         meas = call['meas']
-        tuples = [(Q, y, s, tuple(p)) for Q, y, s, p in measure.as_tuples(meas, [case['spellings']] * len(meas))]
+        # spelling of the projections: in a third of the cases a one-attribute projection is the bare attribute
+        # name, which Dataset.project accepts (a list is not hashable and PublicInference keys a dict by it)
+        form = ('tuple', 'str', 'tuple')[(int(n) + len(attrs) + int(sum(shape))) % 3]
+        ctx.tag('proj_form:' + form)
+        tuples = [(Q, y, s, (p if isinstance(p, (str, list)) else tuple(p))) for Q, y, s, p in
+                  measure.as_tuples(meas, [case['spellings']] * len(meas), [form] * len(meas))]
         plain = measure.plain_tuples(meas)
         with np.errstate(all='ignore'):
             res = eng.estimate(tuples, total=call['total'])
